@@ -1,12 +1,60 @@
-// ===== prelude/unicode.rs — TRUSTED: src/model/unicode.rs `String::to_unicode` (UTF-16LE through std's encode_utf16) =====
-/// UTF-16LE encoding of a string; only structural facts are exposed
-pub uninterp spec fn utf16le(s: Seq<char>) -> Seq<u8>;
-pub broadcast axiom fn axiom_utf16le_len(s: Seq<char>)
-    ensures #[trigger] utf16le(s).len() % 2 == 0, 2 * s.len() <= utf16le(s).len() <= 4 * s.len();
+// ===== prelude/unicode.rs — UTF-16LE (src/model/unicode.rs `String::to_unicode`, src/nla/ntlm.rs `unicode`) =====
+// TRUSTED here: `utf16_units` (what std's str::encode_utf16 yields), its length axiom, the exec stand-in `encode_utf16_units`, and the
+// callable contract of `String::to_unicode` (its real body is PROVED against the identical clause in unit `text`).
+// Everything else (units_le, utf16le, the length facts of utf16le) is defined / proved.
+
+/// TRUSTED (std): the UTF-16 code units that `str::encode_utf16` yields for a string, in order (uninterpreted)
+pub uninterp spec fn utf16_units(s: Seq<char>) -> Seq<u16>;
+/// TRUSTED axiom (std / Unicode): every char becomes one code unit (BMP) or two (surrogate pair)
+pub broadcast axiom fn axiom_utf16_units_len(s: Seq<char>)
+    ensures s.len() <= #[trigger] utf16_units(s).len() <= 2 * s.len();
+
+/// the little-endian bytes of a sequence of 16-bit units: concatenation of le16(x), in order
+pub open spec fn units_le(u: Seq<u16>) -> Seq<u8>
+    decreases u.len()
+{
+    if u.len() == 0 { Seq::empty() } else { units_le(u.drop_last()) + le16(u.last()) }
+}
+/// PROVED: two bytes per unit
+pub proof fn lemma_units_le_len(u: Seq<u16>)
+    ensures units_le(u).len() == 2 * u.len()
+    decreases u.len()
+{
+    if u.len() > 0 { lemma_units_le_len(u.drop_last()); }
+}
+/// PROVED: one more unit appends its two bytes (the step of the encoding loops)
+pub proof fn lemma_units_le_push(u: Seq<u16>, x: u16)
+    ensures units_le(u.push(x)) == units_le(u) + le16(x)
+{
+    assert(u.push(x).drop_last() =~= u);
+}
+
+/// UTF-16LE encoding of a string: the code units of encode_utf16, each written little-endian.
+/// Opaque: units that only need the length facts see an uninterpreted function (as before); `reveal(utf16le)` gives the definition.
+#[verifier::opaque]
+pub open spec fn utf16le(s: Seq<char>) -> Seq<u8> { units_le(utf16_units(s)) }
+
+/// PROVED (was an axiom): even length, between 2 and 4 bytes per char.  The name is historical (units mcs, sec, ntlm, connector use it).
+pub broadcast proof fn axiom_utf16le_len(s: Seq<char>)
+    ensures #[trigger] utf16le(s).len() % 2 == 0, 2 * s.len() <= utf16le(s).len() <= 4 * s.len()
+{
+    reveal(utf16le);
+    lemma_units_le_len(utf16_units(s));
+    axiom_utf16_units_len(s);
+}
+
+/// TRUSTED std stand-in for the iterator `s.encode_utf16()` (Verus has no model of core::str::EncodeUtf16): the same code units, collected.
+/// The declared rewrite R6 of the two encoding loops (`for c in x.encode_utf16() {` -> index loop over this vector) goes through it.
+#[verifier::external_body]
+pub fn encode_utf16_units(s: &String) -> (r: Vec<u16>)
+    ensures r@ == utf16_units(s@)
+{ s.encode_utf16().collect() }
+
 pub trait Unicode {
     fn to_unicode(&self) -> (r: Vec<u8>);
 }
 impl Unicode for String {
+    // contract proved for the real body in unit text (specs/text.py: same clause text, checked on every assembly)
     #[verifier::external_body]
     fn to_unicode(&self) -> (r: Vec<u8>)
         ensures r@ == utf16le(self@)
